@@ -66,7 +66,8 @@ package http
 //@   requires ctv == nil || typeIs(ctv, string)
 //@   ensures* nonnil: result != nil
 //@   ensures* agree.fresh: h0 == "" ==> encFmt(result) == wireFormat(normMT(ctOf(h)))
-//@   ensures* agree.preset.simple: h0 != "" && !contains(h0, "+") && !contains(h0, ";") ==> encFmt(result) == wireFormat(normMT(ctOf(h)))
+//@   ensures* agree.preset.simple.ct: ct != "" && h0 != "" && !contains(h0, "+") && !contains(h0, ";") ==> encFmt(result) == wireFormat(normMT(ctOf(h)))
+//@   ensures* agree.preset.simple.accept: ct == "" && h0 != "" && !contains(h0, "+") && !contains(h0, ";") ==> encFmt(result) == wireFormat(normMT(ctOf(h)))
 //@   ensures* agree.preset.structured: h0 != "" && (contains(h0, "+") || contains(h0, ";")) ==> encFmt(result) == wireFormat(normMT(ctOf(h)))
 //@   ensures* fallback: h0 == "" && ct == "" && wireFormat(normMT(accept)) == 0 ==> encFmt(result) == 0
 //@   modifies HdrVal[rwHeader(w)]
